@@ -16,7 +16,7 @@ RULE = ("well-formed: index lists of length 0..5 over [0,2^32) with edge values,
         "with and without marker) applied at every level 1..5; deep: well-formed paths of 6..12 levels; lenient: spellings "
         "Python's int() accepts (+5, ' 7', 1_0, non-ASCII digits, trailing '/') judged for value only; distinct = distinct "
         "(monitor, case) digests"
-        " EXTENSIONS: + all two- and three-marker suffix combinations, well-formed twins (case / NFKC / stripped spellings) looked up before the malformed string, wallets imported at depth d (private and watch-only), every refusal repeated three times, out-of-range numbers dressed the way int() tolerates")
+        " EXTENSIONS: + all two- and three-marker suffix combinations, well-formed twins (case / NFKC / stripped spellings) looked up before the malformed string, wallets imported at depth d (private and watch-only), every refusal repeated three times, out-of-range numbers dressed the way int() tolerates, every malformed string also offered to watch-only wallets imported at depth 0 and 3, request histories")
 LEVEL_TEXT = ("Each Bip32Path.parse / str / by_path / str(node) execution is compared with an own strict recursive-descent "
               "parser and the reference derivation; malformed strings must make by_path raise (a returned node is the "
               "violation); paths deeper than five levels must raise or yield the node of the FULL path.")
@@ -172,8 +172,18 @@ def judge_malformed(ctx, case):
                 except Exception:  # noqa
                     pass
     ok, obs, outcome = refused(lambda: bridge.node_obs(w.by_path(s)))       # (stable refusal: asked three times in a row)
-    return ctx.judge("malformed", ok, case, "raise (%s)" % kind[1], obs, cls="mal|%s|%s" % (case["fault"], kind[1]),
-                     outcome=outcome, mech="C17.malformed.accepted")
+    r = ctx.judge("malformed", ok, case, "raise (%s)" % kind[1], obs, cls="mal|%s|%s" % (case["fault"], kind[1]),
+                  outcome=outcome, mech="C17.malformed.accepted")
+    # the same malformed text on WATCH-ONLY wallets (public derivation is other code: its own serialisation of the child number,
+    # its own refusals), imported at depth 0 and at depth 3, root letter switched to M
+    sM = ("M" + s[1:]) if s[:1] == "m" else s
+    if rpath.classify(sM)[0] == "malformed":
+        for root_path in ((), (84 + H, H, H)):
+            wo = wallet_kind(case["seed"], case["testnet"], "pub-import", list(root_path))[0]
+            ok2, obs2, outcome2 = refused(lambda: bridge.node_obs(wo.by_path(sM)))
+            r = ctx.judge("malformed", ok2, dict(case, s=sM, wallet="watch-only", imported_at_depth=len(root_path)), "raise (%s)" % kind[1], obs2,
+                          cls="mal-watch|%s|%s" % (case["fault"], kind[1]), outcome=outcome2, mech="C17.malformed.accepted") and r
+    return r
 
 
 def judge_lenient(ctx, case):
